@@ -575,6 +575,26 @@ func cfbRunConnSession(tr *vk.Trace, s cfbSession, classes map[string]int) {
 	n := 4 + rng.Intn(30)
 	for i := 0; i < n; i++ {
 		d := []string{"ab", "ba"}[rng.Intn(2)]
+		if inflight["ab"] == 0 && inflight["ba"] == 0 && rng.Intn(8) == 0 {
+			// nothing in flight: both ends enable encryption again with a new key and IV (SetCipher replaces the streams;
+			// the connection stays the FIFO channel it was)
+			rng.Read(key)
+			iv = make([]byte, 16)
+			rng.Read(iv)
+			if p, msg := catch(func() {
+				for _, c := range []*mcnet.Conn{a, b} {
+					blk, err := aes.NewCipher(key)
+					if err != nil {
+						panic(err)
+					}
+					c.SetCipher(CFB8.NewCFB8Encrypt(blk, iv), CFB8.NewCFB8Decrypt(blk, iv))
+				}
+			}); p {
+				tr.Add(map[string]any{"k": "panic", "msg": msg})
+				return
+			}
+			classes[fmt.Sprintf("conn/thr%d/rekey", thr)]++
+		}
 		switch {
 		case rng.Intn(5) < 3:
 			if !send(d) {
